@@ -241,7 +241,7 @@ int hx_poll(reproc_event_source *src, size_t n, int timeout)
   vk_api_end(r);
   char ev[64] = "";
   size_t o = 0;
-  for (size_t i = 0; i < n && i < 4 && o < sizeof ev - 8; i++) o += (size_t) snprintf(ev + o, sizeof ev - o, "%x,", (unsigned) src[i].events);
+  for (size_t i = 0; src && r >= 0 && i < n && i < 4 && o < sizeof ev - 8; i++) o += (size_t) snprintf(ev + o, sizeof ev - o, "%x,", (unsigned) src[i].events);
   vk_obs("poll(%zu,%d)=%s ev=%s", n, timeout, hx_errname(r), r >= 0 ? ev : "-");
   return r;
 }
